@@ -13,8 +13,6 @@ static mut VH_ENV_MINE: [u8; LMAX] = [0; LMAX];
 static mut VH_ENV_THEIRS: [u8; LMAX] = [0; LMAX];
 static mut VH_ENV_BUDGET: usize = 0;
 static mut VH_ENV_IT: *const () = core::ptr::null();
-static mut VH_ENV_BASE: *const u8 = core::ptr::null();
-static mut VH_ENV_LEN: usize = 0;
 static mut VH_ENV_BAD: bool = false;
 static mut VH_ENV_RAN: usize = 0;
 static mut VH_ENV_SKIPPED: bool = false;
@@ -30,37 +28,33 @@ fn theirs(p: usize) {
     }
 }
 
-/// The other thread: at most `VH_ENV_BUDGET` complete pulls, each at an arbitrary access point.
-fn env_slice() {
+/// The other thread: at most `VH_ENV_BUDGET` complete pulls, each at an arbitrary access point. Its own
+/// deliveries are recorded by reported index (the operation under test is checked by element identity).
+fn env_any<I: ConcurrentIter>() {
     unsafe {
         if VH_ENV_BUDGET == 0 || !kani::any::<bool>() {
             return;
         }
         VH_ENV_BUDGET -= 1;
         VH_ENV_RAN += 1;
-        let it = &*(VH_ENV_IT as *const ConIterOfSlice<'static, u8>);
-        let src = core::slice::from_raw_parts(VH_ENV_BASE, VH_ENV_LEN);
+        let it = &*(VH_ENV_IT as *const I);
         let what: u8 = kani::any();
         if what == 0 {
             if let Some(x) = it.next_id_and_value() {
-                let p = pos_in(src, x.value);
-                if p != x.idx {
-                    VH_ENV_BAD = true;
-                }
-                theirs(p);
+                theirs(x.idx);
             }
         } else if what == 1 {
             let m: usize = kani::any();
             kani::assume(m >= 1 && m <= LEN + 1);
             if let Some(c) = it.next_chunk(m) {
                 let b = c.begin_idx;
-                let mut k = 0;
-                for r in c.values {
-                    if pos_in(src, r) != b + k {
-                        VH_ENV_BAD = true;
+                let k = c.values.len();
+                let mut i = 0;
+                while i < LEN {
+                    if i < k {
+                        theirs(b + i);
                     }
-                    theirs(b + k);
-                    k += 1;
+                    i += 1;
                 }
             }
         } else if VH_ENV_ALLOW_SKIP {
@@ -99,19 +93,17 @@ fn verdict(len: usize) {
     }
 }
 
-fn setup(src: &[u8], it: &ConIterOfSlice<'_, u8>, allow_skip: bool) {
+fn setup<I: ConcurrentIter>(_src: &[u8], it: &I, allow_skip: bool) {
     hook::link();
     unsafe {
-        VH_ENV_IT = it as *const _ as *const ();
-        VH_ENV_BASE = src.as_ptr();
-        VH_ENV_LEN = src.len();
+        VH_ENV_IT = it as *const I as *const ();
         VH_ENV_BUDGET = 2;
         VH_ENV_ALLOW_SKIP = allow_skip;
-        VH_ENV = Some(env_slice);
+        VH_ENV = Some(env_any::<I>);
     }
 }
 
-fn done(it: &ConIterOfSlice<'_, u8>) {
+fn done<I: ConcurrentIter>(it: &I) {
     unsafe {
         VH_ENV = None;
     }
@@ -210,4 +202,76 @@ fn env_for_each_skip_slice() {
     it.for_each(n, |r| mine(pos_in(src, r)));
     done(&it);
     verdict(len);
+}
+
+// @verif family=ENV hook=1 thorough=C12,C01,C02 timeout=1800 owner=C12
+// @bounds kind=Range<usize> start<=5 len<=3; for_each(n) / enumerate_for_each(n) with n in [1,4] while another party performs <=2 complete pulls at arbitrary access points
+#[kani::proof]
+#[kani::unwind(7)]
+fn env_loops_range() {
+    let len: usize = kani::any();
+    kani::assume(len <= LEN);
+    let start: usize = kani::any();
+    kani::assume(start <= 5);
+    let it = IntoConcurrentIter::into_con_iter(start..start + len);
+    setup(&[], &it, false);
+    let n: usize = kani::any();
+    kani::assume(n >= 1 && n <= LEN + 1);
+    if kani::any() {
+        it.for_each(n, |v| mine(v.wrapping_sub(start)));
+    } else {
+        it.enumerate_for_each(n, |i, v| {
+            let p = v.wrapping_sub(start);
+            if p != i {
+                unsafe { VH_ENV_BAD = true };
+            }
+            mine(p)
+        });
+    }
+    done(&it);
+    verdict(len);
+}
+
+// @verif family=ENV hook=1 thorough=C12,C01,C08 timeout=1800 owner=C12
+// @bounds kind=Vec<Tracked> len<=3 (capacity 4); for_each(n) / fold(n) with n in [1,4] while another party performs <=2 complete pulls at arbitrary access points (its elements are dropped); then drop
+#[kani::proof]
+#[kani::unwind(7)]
+fn env_loops_vec() {
+    let len: usize = kani::any();
+    kani::assume(len <= LEN);
+    let mut v = Vec::with_capacity(LEN + 1);
+    let mut i = 0;
+    while i < len {
+        v.push(Tracked(i as u8));
+        i += 1;
+    }
+    let it = v.into_con_iter();
+    setup(&[], &it, false);
+    let n: usize = kani::any();
+    kani::assume(n >= 1 && n <= LEN + 1);
+    if kani::any() {
+        it.for_each(n, |t| mine(t.0 as usize));
+    } else {
+        let cnt = it.fold(n, 0usize, |a, t| {
+            mine(t.0 as usize);
+            a + 1
+        });
+        let mut mine_total = 0usize;
+        let mut p = 0;
+        while p < LEN {
+            mine_total += unsafe { VH_ENV_MINE[p] } as usize;
+            p += 1;
+        }
+        assert!(cnt == mine_total, "C12: fold result does not match the elements it visited");
+    }
+    done(&it);
+    verdict(len);
+    drop(it);
+    let mut p = 0;
+    while p < LEN {
+        if p < len {
+            assert!(drops(p) == 1, "C08 C12: every element visited by the loop or pulled by the other party is destroyed exactly once");
+        }
+        p += 1;
+    }
 }
